@@ -141,7 +141,9 @@ CLAIMED = {
         text="Contract-based deductive proof: the real curl/divergence/update closures are COMPOSED symbolically on symbolic "
              "fields of symbolic extent; div(curl)=0, curl-type updates leave div unchanged, 2-D stream-function velocity "
              "divergence-free with wide-Laplacian curl, forcing update = omega + library curl, penalised update = forcing update "
-             "of the difference: exact identities at a symbolic cell whose stencils avoid the ring.",
+             "of the difference: exact identities at a symbolic cell whose stencils avoid the ring. The real 3-D simulator's "
+             "get_vorticity_divergence_l2_norm is under contract (monitored buffer = library divergence of the current vorticity, "
+             "0 on the ring, state not modified, result = l2 norm times dx^(3/2); np.linalg.norm by contract).",
         note=TRUST,
         technique="symbolic composition of the real closures + exact polynomial identity (normaliser)",
         ref="5-C12"),
